@@ -26,6 +26,10 @@ PROFILE = {"new": 12, "close": 3, "show": 4, "hide": 5, "restack": 8, "geom": 8,
            "scroll": 3, "scrollrect": 1, "tresize": 3, "focus": 1, "cursor": 1, "dead": 1, "_noexpose": 0.4}
 
 
+PROFILE_SCATTER = {"new": 14, "show": 2, "hide": 3, "geom": 4, "expose": 4, "flush": 6, "_noexpose": 0.3}
+PROFILE_LINES = {"new": 14, "show": 2, "hide": 3, "restack": 5, "geom": 4, "expose": 6, "flush": 8, "_noexpose": 0.3}
+
+
 def rnd_prog(rnd, h, w):
     n = rnd.randint(1, 6)
     out = []
@@ -67,6 +71,41 @@ def gen(tier, seed, info):
     info["random_cases"] = nrand
     info["random_op_kind_counts"] = kinds
     info["exhaustive"] = False
+    # line grids: every window draws long horizontal and vertical lines (same pen everywhere), so that the lines of a
+    # lower layer pass through cells where a covering window drew a segment of its own
+    nline = 3000 if tier == "quick" else 100000
+    for _ in range(nline):
+        nl, nc = rnd.randint(3, 6), rnd.randint(4, 9)
+        ops, sh = wingen.history(rnd, nl, nc, rnd.randint(3, 14), PROFILE_LINES)
+        prs = []
+        for w in range(0, sh.next_id):
+            d = []
+            for _k in range(rnd.randint(1, 4)):
+                if rnd.random() < 0.5:
+                    d.append("h %d %d %d" % (rnd.randint(-1, nl), rnd.randint(-3, 1), rnd.randint(1, nc + 2)))
+                else:
+                    d.append("v %d %d %d" % (rnd.randint(-3, 1), rnd.randint(1, nl + 2), rnd.randint(-1, nc)))
+            if rnd.random() < 0.3:
+                d.insert(0, "p")
+            prs.append("PR %d %d %s" % (w, len(d), " ".join(d)))
+        yield wingen.header(rnd, nl, nc) + " " + " ".join(prs + ops) + " F EA 0 F"
+    info["line_grid_cases"] = nline
+    # scattered damage: more than six small disjoint exposes (no two touching) before one flush, hostile programs, and no
+    # restack anywhere, so that the oracle can demand that every rectangle handed to the root was damage
+    nsc = 1500 if tier == "quick" else 50000
+    for _ in range(nsc):
+        nl, nc = rnd.randint(5, 7), rnd.randint(7, 10)
+        ops, sh = wingen.history(rnd, nl, nc, rnd.randint(2, 8), PROFILE_SCATTER)
+        prs = []
+        for w in range(0, sh.next_id):
+            if rnd.random() < 0.7:
+                n, pgm = rnd_prog(rnd, nl, nc)
+                prs.append("PR %d %d %s" % (w, n, pgm))
+        cells = [(y, x) for y in range(0, nl, 2) for x in range(0, nc, 2)]
+        rnd.shuffle(cells)
+        sc = ["E 0 %d %d 1 1" % c for c in cells[:rnd.randint(7, min(len(cells), 14))]]
+        yield wingen.header(rnd, nl, nc) + " " + " ".join(prs + ops) + " F " + " ".join(sc) + " F"
+    info["scattered_damage_cases"] = nsc
 
 
 def dop_kinds(case):
